@@ -93,7 +93,8 @@ class Matcher:
     def _cache_regex(self):
         if self._cached_re is not None:
             return
-        pattern = self.pattern.regex_pattern(self.env) + "$"
+        # \Z, "$" also matches before a trailing newline
+        pattern = self.pattern.regex_pattern(self.env) + r"\Z"
         if self.encoding is not None:
             pattern = pattern.encode(self.encoding)
         self._cached_re = re.compile(pattern)
